@@ -50,7 +50,8 @@ class Undecided(Exception):
 # --------------------------------------------------------------------------
 
 def _is_time(x):
-    return x is None or (isinstance(x, (int, float)) and not isinstance(x, bool))
+    # bool is an int in Python (True == 1 s): nothing in the API says otherwise
+    return x is None or isinstance(x, (int, float))
 
 
 def expect_arg_seq(args, ttf, out_feats):
@@ -102,7 +103,9 @@ def expect_arg(a, ttf, feats):
             feats.add('str-non-ascii')
         return ('s', a)
     if isinstance(a, (bytes, bytearray, memoryview)):
-        raw = bytes(a)
+        raw = bytes(a)          # every byte of the buffer, whatever its format
+        if isinstance(a, memoryview) and (a.itemsize != 1 or a.ndim != 1):
+            feats.add('blob-memoryview-of-multibyte-items')
         if len(raw) % 4:
             feats.add('blob-unaligned')
         if not raw:
@@ -120,11 +123,14 @@ def expect_arg(a, ttf, feats):
             return ('blobbundle', expect_bundle(a, ttf, feats))
         raise Undecided('list-not-osc-shaped')
     if isinstance(a, tuple):
-        if len(a) == 4 and all(isinstance(x, int) and not isinstance(x, bool)
-                               and 0 <= x <= 255 for x in a):
-            feats.add('midi')
-            return ('m', tuple(a))
-        raise Undecided('tuple')
+        # the builder documents 4-tuples as MIDI messages (port id, status,
+        # data1, data2): four bytes
+        if len(a) == 4 and all(isinstance(x, int) for x in a):
+            if all(0 <= x <= 255 for x in a):
+                feats.add('midi')
+                return ('m', tuple(int(x) for x in a))
+            raise MustRefuse('midi-byte-out-of-range')
+        raise MustRefuse('unsupported-type')
     raise MustRefuse('unsupported-type')
 
 
@@ -139,7 +145,9 @@ def expect_msg(lst, ttf, feats=None):
     if '\0' in addr:
         raise MustRefuse('str-embedded-nul')
     if not addr.startswith('/'):
-        raise Undecided('address-without-slash')
+        # OSC 1.0: "An OSC Address Pattern is an OSC-string beginning with
+        # the character '/'"
+        raise MustRefuse('address-without-slash')
     try:
         addr.encode('utf-8')
     except UnicodeEncodeError:
@@ -154,8 +162,9 @@ def expect_bundle(lst, ttf, feats=None, parent_time='top'):
     if not lst or not _is_time(lst[0]):
         raise MustRefuse('bundle-time-not-number')
     t = lst[0]
-    if t is not None and t != t:
-        raise MustRefuse('bundle-time-nan')
+    # (-inf is below zero: 'immediately', like every negative latency)
+    if t is not None and (t != t or t == float('inf')):
+        raise MustRefuse('bundle-time-not-finite')
     if parent_time != 'top':
         # OSC 1.0: the timetag of an enclosed bundle must be >= the timetag
         # of the enclosing bundle.  'immediately' inside a timed bundle
@@ -177,7 +186,10 @@ def expect_bundle(lst, ttf, feats=None, parent_time='top'):
             elems.append(expect_bundle(e, ttf, feats, parent_time=t))
         else:
             raise MustRefuse('bundle-element-not-osc-shaped')
-    return ('bundle', ttf(t), elems)
+    tt = ttf(t)
+    if tt is not None and not 0 <= tt < 2 ** 64:
+        raise MustRefuse('timetag-out-of-uint64')
+    return ('bundle', tt, elems)
 
 
 # --------------------------------------------------------------------------
@@ -439,7 +451,11 @@ def gen_blob(rng, aligned=None):
         return b
     if k < 0.9:
         return bytearray(b)
-    return memoryview(b)
+    if k < 0.97 or len(b) < 8:
+        return memoryview(b)
+    # buffers whose items are not single bytes (array('i'), cast views)
+    b = b[:len(b) // 8 * 8]
+    return memoryview(b).cast(rng.choice(['H', 'i', 'd', 'I']))
 
 
 def gen_float(rng):
@@ -468,7 +484,7 @@ def gen_int(rng):
 
 HOSTILE = ['int-big', 'float-big', 'str-nul', 'blob-empty', 'unsupported',
            'unbalanced', 'surrogate', 'unshaped-list', 'addr-empty',
-           'nested-addr-nul']
+           'nested-addr-nul', 'addr-noslash', 'midi-range', 'time-special']
 
 
 def gen_hostile(rng, kind):
@@ -493,6 +509,12 @@ def gen_hostile(rng, kind):
         return rng.choice([[1], [1, 2], [[1]], [0.5], [None], [b'x', 1]])
     if kind == 'nested-addr-nul':
         return ['/a\0b', 1]
+    if kind == 'midi-range':
+        t = [rng.randint(0, 255) for _ in range(4)]
+        t[rng.randrange(4)] = rng.choice([256, -1, 1000, 2 ** 31, -128, 511])
+        return tuple(t)
+    if kind == 'time-special':        # only meaningful as a bundle time
+        return rng.randint(0, 9)
     raise AssertionError(kind)
 
 
@@ -541,6 +563,8 @@ def gen_msg(rng, depth=0, hostile=None, maxargs=10):
     addr = gen_addr(rng, plain=depth > 0 and rng.random() < 0.7)
     if hostile == 'addr-empty':
         addr = ''
+    elif hostile == 'addr-noslash':
+        addr = rng.choice(['status', 'n_set', 'a/b', addr[1:] + 'x'])
     elif hostile == 'unbalanced':
         if rng.random() < 0.5:
             args.insert(rng.randint(0, len(args)), '[')
@@ -552,7 +576,10 @@ def gen_msg(rng, depth=0, hostile=None, maxargs=10):
     return [addr] + args
 
 
-LATENCIES = [None, -1, -0.5, 0, 0.0, 1e-9, 0.2, 0.2, 1, 3, 3.0, 17.25]
+LATENCIES = [None, -1, -0.5, 0, 0.0, -0.0, 1e-9, 0.2, 0.2, 1, 3, 3.0, 17.25,
+             True, False]
+TIME_SPECIALS = [float('nan'), float('inf'), float('-inf'), 1e30, 1e12, 1e9,
+                 2.0 ** 31, 4.0e9]
 
 
 def gen_latency(rng):
@@ -601,7 +628,19 @@ def gen_bundle(rng, depth=0, as_arg=False, order='any', hostile=None):
     b = rec(depth, 'top')
     if as_arg and not isinstance(b[1], list):
         b.insert(1, ['/x'])
-    if hostile:
+    if hostile == 'time-special':
+        # a time that is not a finite number or is far outside what a 64 bit
+        # timetag holds, on the bundle itself or on a nested one
+        bs = [b]
+
+        def collb(x):
+            for e in x[1:]:
+                if not isinstance(e[0], str):
+                    bs.append(e)
+                    collb(e)
+        collb(b)
+        rng.choice(bs)[0] = rng.choice(TIME_SPECIALS)
+    elif hostile:
         # put one hostile value into one message of the bundle
         msgs = []
 
@@ -616,6 +655,8 @@ def gen_bundle(rng, depth=0, as_arg=False, order='any', hostile=None):
             m = rng.choice(msgs)
             if hostile == 'addr-empty':
                 m[0] = ''
+            elif hostile == 'addr-noslash':
+                m[0] = 'n_set'
             elif hostile == 'unbalanced':
                 m.append('[')
             else:
@@ -632,7 +673,9 @@ def neutralize(lst, which):
     def val(a):
         if which == 'blob' and isinstance(a, (bytes, bytearray, memoryview)):
             raw = bytes(a)
-            return raw + b'\0' * (-len(raw) % 4)
+            return raw + b'\0' * (-len(raw) % 4) if len(raw) % 4 else a
+        if which == 'mview' and isinstance(a, memoryview):
+            return bytes(a)
         if which == 'str' and isinstance(a, str) and a not in ('[', ']'):
             n = len(a.encode('utf-8'))
             return a if n == len(a) else 'x' * n
